@@ -86,6 +86,8 @@ def line_text(k, n, a, b):
         return '#endif'
     if k == 'define':
         return f'#define {nm(n)} {a}' if a >= 0 else f'#define {nm(n)}'
+    if k == 'alias':
+        return f'#define {nm(n)} {nm("S1")}'
     if k == 'mkzone':
         return f'#create_memzone {nm(n)} {a} {b}'
     raise ValueError(f'unknown line kind {k}')
